@@ -336,7 +336,7 @@ for n, w, t in (("c15_bc_hist", "broadcast N=1 spins(0,0)", "quick"), ("c15_mp_h
                 ("c15_bc10_hist", "broadcast N=2 spins(1,0)", "thorough")):
     H(n, FU, "C15", ["C15", "C09"], t, "every sub-sequence of the 10-call skeleton start_send start_send try_recv start_send poll try_send poll_complete drop_tx poll poll inside a task vs the model: " + w,
       "10 steps, sequential", rules=FUTRULES)
-for n, r, t in (("c17_churn_r2", 2, "quick"), ("c17_churn_r3", 3, "thorough")):
+for n, r, t in (("c17_churn_r2", 2, "thorough"), ("c17_churn_r3", 3, "thorough")):
     H(n, M, "C17", ["C17", "C16"], t,
       "REAL MemoryManager, %d rounds of 21 retirements; in every round a solver-chosen subset of the two registered handles announces; conservation oracle: retired == freed + pending at every round" % r,
       "%d retirements, 2 tokens, sequential, symbolic lag pattern" % (21 * r + 1), rules=MEMRULES + [(r' @ src/scen_mem', 30)], fp_restrict=FP, builtin_oracle=True, unwind=6, mem_gb=24)
@@ -441,3 +441,8 @@ H("c08_mp_blk00_twodrops_lap", W, "C08", ["C08", "C07", "C12"], "thorough",
   "mpmc N=1 BlockingWait(0,0), lapped ring: blocked recv while the last two sender handles are dropped, nesting depth 2 (one drop preempted everywhere by the other, both inside the waiter's wait)",
   "depth 2, budget 2", rules=WRULES, timeout=3000)
 _opt("c08_mp_blk00_twodrops_lap", "a waiter was legitimately left blocked", "the blocked receiver returned a value")
+
+for n, w in (("c17_churn_r3_nolag", "every handle announces in every round"), ("c17_churn_r3_lag", "handle 2 does no operation during round 2, i.e. it lags exactly while the first batch waits for it")):
+    H(n, M, "C17", ["C17", "C16"], "quick",
+      "REAL MemoryManager, 3 rounds of 21 retirements, " + w + "; conservation oracle: retired == freed + pending after every round, at most two batches pending at the end",
+      "64 retirements, 2 tokens, sequential", rules=MEMRULES + [(r' @ src/scen_mem', 30)], fp_restrict=FP, builtin_oracle=True, unwind=6, mem_gb=24)
